@@ -95,7 +95,7 @@ def run(ctx):
         ctx.add("C12.R2", root + "#no-randomness-in-output", not rn,
                 "the evaluation output must not depend on any random draw; found %s" % sorted(map(str, rn)), at)
         # the PRF is evaluated on exactly the tag byte
-        pe = [e for e in Q.calls(eng, "PPRF>::eval") if e["frame"] == fr.key]
+        pe = [e for e in Q.calls(eng, "PPRF>::eval")]
         okp = len(pe) == 1 and Q.params(Q.leaves(pe[0]["argv"][1])) == {"md"} and Q.path_of(pe[0]["argv"][0]) == "self.%d" % ipp
         ctx.add("C12.R2", root + "#prf-on-tag", okp, "the puncturable PRF must be evaluated on [md] with the server's own key", at)
     ctx.floor("C12.R2", 4)
